@@ -943,6 +943,8 @@ class Prims:
 
     def m_len(self, ex, st, a, k, node):
         x = a[0]
+        if hasattr(x, "pyvc_len"):
+            return x.pyvc_len()
         if isinstance(x, SSeq):
             return x.length
         if isinstance(x, GhostMap):
